@@ -16,7 +16,7 @@ CLAIMS = {
   "note": LANG_NOTE,
   "technique": LANG_TECH},
  "C09": {
-  "text": 'Partial. Proved (Props/C09.v, 17, closed): with the recover at the rule entry point no rule execution of the model yields a panic (and without it `if 5 {}` does — so the recover is what contains it); every model function is total (termination by construction), a for loop evaluates its condition at most 10000 times; conc children never let a panic out; engine level: every entry point returns nil or an error for every configuration, runs the other rules as its error policy prescribes (hand_sound) and later calls are unaffected. Established by translator + observation: T1 (every fan-out child signals its WaitGroup on every path: goBody shape); fault matrix of 31 fault classes x 12 construct positions (+ forRange / unbounded-loop / unassignable-target shapes) whose predicted outcome (value / error with cited positions) must be what the call returned, and 660 engine calls (21 entry points x 5 faulty rule kinds x 4 positions x flags) in child processes. Observed, not proved: that the real process does not crash or hang.',
+  "text": 'Partial. Proved (Props/C09.v, 17, closed): with the recover at the rule entry point no rule execution of the model yields a panic (and without it `if 5 {}` does — so the recover is what contains it); every model function is total (termination by construction), a for loop evaluates its condition at most 10000 times; conc children never let a panic out; engine level: every entry point returns nil or an error for every configuration, runs the other rules as its error policy prescribes (hand_sound) and later calls are unaffected. Established by translator + observation: T1 (every fan-out child signals its WaitGroup on every path: goBody shape); fault matrix of 31 fault classes x 17 construct positions (+ forRange / unbounded-loop / unassignable-target shapes) whose predicted outcome (value / error with cited positions) must be what the call returned, and 660 engine calls (21 entry points x 5 faulty rule kinds x 4 positions x flags) in child processes. Observed, not proved: that the real process does not crash or hang.',
   "note": LANG_NOTE,
   "technique": LANG_TECH},
  "C18": {
@@ -24,7 +24,7 @@ CLAIMS = {
   "note": LANG_NOTE,
   "technique": LANG_TECH},
  "C01": {
-  "text": "Theorems (Props/C01.v, 49, closed, for every float_ops): integer + - * wrap at 64 bits (mixed signed/unsigned included), / truncates, division by zero of any class fails, a float operand promotes to float64, + concatenates strings, ill-typed arithmetic never yields a value; integer comparisons are exact over all of Z (signed against unsigned included), float comparisons use the float order, strings lexicographic, booleans only == / !=; && || ! only on booleans; every expression node yields a value only if all its operands did (both operands always evaluated, left first) and errors propagate; @name/@id/@desc/@sal. Precedence and left-associativity are tied to the real parser by correspondence: all operator pairs and 150 (thorough: all) triples printed without parentheses, the listener's tree compared with the grammar's reading; plus 14x14 operand kinds x operators at boundary values, random trees. Partial only in that the grammar reading (flat_to_tree) lives in the generator, not in a proved parser.",
+  "text": "Theorems (Props/C01.v, 56, closed, for every float_ops): integer + - * wrap at 64 bits (mixed signed/unsigned included), / truncates, division by zero of any class fails, a float operand promotes to float64, + concatenates strings, ill-typed arithmetic never yields a value; integer comparisons are exact over all of Z (signed against unsigned included), float comparisons use the float order, strings lexicographic, booleans only == / !=; && || ! only on booleans; every expression node yields a value only if all its operands did (both operands always evaluated, left first) and errors propagate; @name/@id/@desc/@sal. Precedence, left associativity and parentheses: Lang/Parse.v is an operator-precedence reader (tokens -> shape of the listener's tree, with the grammar's two sorts) proved sound and complete against the canonical-form specification (parse ts = Some t <-> print t = ts /\\ canon t /\\ sorted t; the reading is unique; a tighter operator binds first, equal or looser associates left, parentheses override — for operands of any shape), and tied to the generated ANTLR parser on every run: ~1400 token strings (all operator pairs bare / parenthesised / negated, triples, nested random strings, sort errors, token mutations, noise; three contexts) compiled by the implementation, tree shape dumped by reflection, parse must return exactly that shape or None exactly when compile fails. Plus: all operator pairs and 150 (thorough: all) triples evaluated end to end, 14x14 operand kinds x operators at boundary values, random trees.",
   "note": LANG_NOTE,
   "technique": LANG_TECH},
  "C02": {
@@ -32,7 +32,7 @@ CLAIMS = {
   "note": LANG_NOTE,
   "technique": LANG_TECH},
  "C10": {
-  "text": 'Partial. Proved (Props/C10.v, 5, closed, for any front end): an entry point that inspects all diagnostics before installing is all-or-nothing, installs exactly the C08 replacement/merge on success, and any two such entry points accept exactly the same texts; duplicate names are rejected. Per-run obligation: the five entry points regenerated from the source (xlate compile) are all of that shape (obligations/GenCompileOk.v). Observed, not proved: totality (no panic / crash over valid, token-mutated, lexer-noise and arbitrary-byte streams, 260 texts x 5 entry points quick), pairwise agreement, exact state equality on reject.',
+  "text": 'Partial. Proved (Props/C10.v, 5, closed, for any front end): an entry point that inspects all diagnostics before installing is all-or-nothing, installs exactly the C08 replacement/merge on success, and any two such entry points accept exactly the same texts; duplicate names are rejected. Per-run obligation: the five entry points regenerated from the source (xlate compile) are all of that shape (obligations/GenCompileOk.v). Observed, not proved: totality (no panic / crash over valid, token-mutated, lexer-noise, arbitrary-byte streams and every kind of truncation (token-boundary prefixes / suffixes of a valid text, keyword-only texts), about 420 texts x 5 entry points quick), pairwise agreement, exact state equality on reject.',
   "note": LANG_NOTE,
   "technique": LANG_TECH},
  "C15": {
@@ -52,7 +52,7 @@ CLAIMS = {
   "note": POOL_NOTE,
   "technique": POOL_TECH},
  "C07": {
-  "text": "Theorems (Props/C07.v, 6, closed): for every well-formed history of updates (atomic installs under one lock, increasing versions) and executions (one snapshot between begin and end), an execution observes exactly one installed version; it is >= every update that returned before the execution began and < every update that began after it ended. Tie: T3 (prepare takes one snapshot of the instance's container under updateLock into a request-private builder; the management methods hold updateLock throughout, publish to all instances, never store into a field of a published container) + 84 scenarios: 14 entry-point shapes x {full, incremental, removal} x {update from inside the first-stage rule, update while that rule is held}, then max simultaneous executions on every instance; per-execution version checks inside Coq.",
+  "text": "Theorems (Props/C07.v, 13, closed): for every well-formed history of updates (atomic installs under one lock, increasing versions) and executions (one snapshot between begin and end), an execution observes exactly one installed version; it is >= every update that returned before the execution began and < every update that began after it ended. Tie: T3 (prepare takes one snapshot of the instance's container under updateLock into a request-private builder; the management methods hold updateLock throughout, publish to all instances, never store into a field of a published container) + 196 scenarios: 14 entry-point shapes x {full, incremental, one-rule incremental, removal of the last / first / middle / two rules} x {update from inside the first-stage rule, update while that rule is held}, then max simultaneous executions on every instance. Per execution, inside Coq: version-tag checks and the set-level check of Pool/Compose.v — the returned (rule, body) entries equal the result map Engine/Spec.v assigns to the entry point on the container of ONE admissible version of Pool/Model.v's management history (all rules of that version and none of another; theorems C07_check_means_one_admissible_version, C07_sort_model_runs_the_whole_version, ...).",
   "note": POOL_NOTE,
   "technique": POOL_TECH},
  "C16": {
